@@ -430,6 +430,8 @@ def make(seed, **kw):
         return make_blockrange(seed)
     if kw.pop('dense', False) and seed % 5 == 3:
         return make_dense(seed)
+    if kw.pop('twoblocks', False) and seed % 7 == 5:
+        return make_twoblocks(seed)
     if kw.pop('case_titles', False) and 'sheets' not in kw:
         if seed % 4 == 3:
             kw['sheets'] = LAYOUT_CASE
@@ -548,6 +550,45 @@ def make_dense(seed):
     g.cells[f3] = {'k': 'f', 'e': ['op', '+', ['ref', f1], ['ref', f2]]}
     g.order += [f1, f2, f3]
     g.directed = [[in1], [in2], [in1, in2]]
+    g.seed = seed
+    return g
+
+
+def make_twoblocks(seed):
+    """Two array-formula blocks on one sheet with plain constants (and a blank) in the gap
+    between them - inside the bounding box of the two blocks, inside neither."""
+    rnd = random.Random(seed * 73 + 11)
+    g = Gen(rnd, sheets=LAYOUT[:1], features=())
+    b, s = LAYOUT[0]
+    vert = rnd.random() < 0.5            # blocks are columns side by side, or rows one above the other
+
+    def at(line, k):                     # line 1..5 across the blocks, k 1..2 along them
+        return cid(b, s, line, k) if vert else cid(b, s, k, line)
+
+    def rect(l1, k1, l2, k2):
+        return ['rng', b, s, l1, k1, l2, k2] if vert else ['rng', b, s, k1, l1, k2, l2]
+    for k in (1, 2):
+        g.cells[at(1, k)] = {'k': 'c', 'v': norm(rnd.choice(NUMS))}
+        g.order.append(at(1, k))
+    for line, op in ((2, '*'), (4, '+')):
+        anchor, sp = at(line, 1), at(line, 2)
+        g.cells[anchor] = {'k': 'af', 'e': ['op', op, rect(1, 1, 1, 2), ['c', norm(V.N(2))]],
+                           'r': 2 if vert else 1, 'c': 1 if vert else 2,
+                           'rect': [b, s] + (rect(line, 1, line, 2)[3:])}
+        g.cells[sp] = {'k': 'sp', 'anchor': anchor, 'i': 2 if vert else 1, 'j': 1 if vert else 2}
+        g.order += [anchor, sp]
+        g.reserved |= {anchor, sp}
+    gap1 = at(3, 1)                      # a constant in the gap; at(3, 2) stays blank or constant
+    g.cells[gap1] = {'k': 'c', 'v': norm(rnd.choice(NUMS))}
+    g.order.append(gap1)
+    if rnd.random() < 0.6:
+        g.cells[at(3, 2)] = {'k': 'c', 'v': norm(rnd.choice(NUMS))}
+        g.order.append(at(3, 2))
+    f1, f2, f3 = at(5, 1), at(5, 2), at(5, 3)
+    g.cells[f1] = {'k': 'f', 'e': ['fn', 'SUM', [rect(3, 1, 3, 2)]]}
+    g.cells[f2] = {'k': 'f', 'e': ['op', '+', ['ref', gap1], ['op', '+', ['ref', at(2, 2)], ['ref', at(4, 2)]]]}
+    g.cells[f3] = {'k': 'f', 'e': ['fn', rnd.choice(['COUNT', 'SUM', 'MAX']), [rect(1, 1, 4, 2)]]}
+    g.order += [f1, f2, f3]
     g.seed = seed
     return g
 
